@@ -1093,6 +1093,44 @@ def install(it):
         return rx_match(a[0].base.v.data, it.mkstr(els))
     M['(*regexp.Regexp).Match'] = m_rxMatchBytes
 
+    # ------------------------------------------------------------------ sync.Map (Load/Store/LoadOrStore/Delete): a map keyed like a Go map
+    it.syncmaps = {}
+    def smap(recv):
+        base = recv.base if isinstance(recv, Ptr) else recv
+        key = id(it.addr_of_aggregate(recv)) if isinstance(recv, Ptr) else id(base)
+        m = it.syncmaps.get(key)
+        if m is None:
+            m = MapV(None, None); m.ktid = T.id_of('interface{}') if 'interface{}' in T.by_str else None
+            m.tag = ('syncmap', recv)
+            it.syncmaps[key] = (m, recv)
+            return m
+        return m[0] if isinstance(m, tuple) else m
+    def iface_key_eq(a, b):
+        return it.iface_eq(a, b)
+    def sm_find(m, k):
+        hk = it.hkey(k)
+        return hk
+    def m_smLoad(it_, a):
+        m = smap(a[0]); hk = it.hkey(a[1])
+        e = m.d.get(hk)
+        return (e[1], True) if e is not None else (None, False)
+    def m_smStore(it_, a):
+        m = smap(a[0])
+        if it.store_hook is not None:
+            agg = it.addr_of_aggregate(a[0]) if isinstance(a[0], Ptr) else a[0]
+            it.store_hook(it, Ptr(agg, 0) if isinstance(agg, StructV) else Ptr(m, 'mapupdate'), a[2])
+        m.d[it.hkey(a[1])] = (a[1], a[2])
+        return None
+    def m_smLoadOrStore(it_, a):
+        v, ok = m_smLoad(it_, a[:2])
+        if ok: return (v, True)
+        m_smStore(it_, a)
+        return (a[2], False)
+    M['(*sync.Map).Load'] = m_smLoad
+    M['(*sync.Map).Store'] = m_smStore
+    M['(*sync.Map).LoadOrStore'] = m_smLoadOrStore
+    M['(*sync.Map).Delete'] = lambda it_, a: smap(a[0]).d.pop(it.hkey(a[1]), None) and None
+
     it.uf_pow = z3.Function('math.Pow', z3.Float64(), z3.Float64(), z3.Float64())
     def m_pow(it_, a):
         x, y = a
